@@ -169,12 +169,15 @@ Definition ub_chan (pr : list N) (acc : list nat) : chan :=
 
 Inductive ub_call : Type :=
 | UExec (args : list (list N))
+| UTest (args : list (list N))
 | UExec0 (args : list (list N))
 | UEnv (var : list N) (value : option (list N)).
 
 Definition ub_step (k : ub_call) (sts : list stage) (c : chan) : V * chan :=
   match k with
   | UExec args => let '(r, c', _) := ub_exec args sts c in (V_xres r, c')
+  | UTest args => let '(r, c', _) := ub_exec args sts c in
+                  (match r with XOk st _ => VL [VN 0; VN (if (st =? 0)%Z then 1 else 0)] | x => VL [VN 2; V_xres x] end, c')
   | UExec0 args => let '(r, c', _) := ub_exec0 args sts c in (V_x0res r, c')
   | UEnv var v => let '(r, c', _) := ub_env var v sts c in (V_x0res r, c')
   end.
